@@ -40,10 +40,15 @@ def lookupVar (vs : List (String × Int)) (v : String) : Option Int :=
 
 def maxMacroDepth : Nat := 255
 
+/-- The name the evaluator model puts in `recursionLimit` when it runs out of its OWN fuel (not the assembler's macro
+depth limit): a NUL character followed by `fuel`. It is not a name the assembler's grammar can produce (macro names are
+made of letters, digits and `_`), so it cannot collide with a user macro — a user macro may well be called `fuel`. -/
+def evalFuelMark : String := "\x00fuel"
+
 mutual
 /-- `Expression::eval_with_context`, with fuel for the jump into macro bodies. -/
 def eval : Nat → Ctx → Expr → Except EvErr Int
-  | 0, _, _ => .error (.recursionLimit "fuel")
+  | 0, _, _ => .error (.recursionLimit evalFuelMark)
   | fuel + 1, ctx, e =>
     match e with
     | .paren e => eval fuel ctx e
@@ -91,7 +96,7 @@ def eval : Nat → Ctx → Expr → Except EvErr Int
 /-- `zip(parameters, arguments)`, arguments evaluated in order; surplus arguments are ignored, a parameter left without
 argument is an error naming it (`fix:` 841db2a, D28: before, the bindings were those of the shorter list) -/
 def evalArgs : Nat → Ctx → List String → Exprs → Except EvErr (List (String × Int))
-  | 0, _, _, _ => .error (.recursionLimit "fuel")
+  | 0, _, _, _ => .error (.recursionLimit evalFuelMark)
   | _ + 1, _, [], _ => .ok []
   | _ + 1, _, p :: _, .nil => .error (.undefinedVariable p)
   | fuel + 1, ctx, p :: ps, .cons a as =>
@@ -106,7 +111,7 @@ mutual
 /-- `Expression::labels`: every label mentioned, following expression macros into
 their bodies (and their arguments). -/
 def labelsOf (ms : List (String × MacroDef)) : Nat → Nat → Expr → Except EvErr (List String)
-  | 0, _, _ => .error (.recursionLimit "fuel")
+  | 0, _, _ => .error (.recursionLimit evalFuelMark)
   | fuel + 1, depth, e =>
     match e with
     | .paren e => labelsOf ms fuel depth e
@@ -130,7 +135,7 @@ def labelsOf (ms : List (String × MacroDef)) : Nat → Nat → Expr → Except 
             | .ok y => .ok (x ++ y)
       | _ => .error (.unknownMacro name)
 def labelsOfArgs (ms : List (String × MacroDef)) : Nat → Nat → Exprs → Except EvErr (List String)
-  | 0, _, _ => .error (.recursionLimit "fuel")
+  | 0, _, _ => .error (.recursionLimit evalFuelMark)
   | _ + 1, _, .nil => .ok []
   | fuel + 1, depth, .cons a as =>
     match labelsOf ms fuel depth a with
